@@ -189,6 +189,8 @@ struct H15 {
 	v: Option<grin_wallet_util::OnionV3Address>,
 }
 pub const N_HELPERS: u64 = 15;
+/// kinds 1..=13 take a hex/base64 string and are modelled after the text layer
+pub const N_FIELD_HELPERS: u64 = 13;
 /// hex (false) or base64 (true) text layer of helper kind k
 fn helper_is_b64(k: u64) -> bool {
 	matches!(k, 2 | 7 | 8 | 10 | 12)
@@ -522,6 +524,7 @@ fn valid_v4(p: &mut Prng, pools: &Pools) -> SlateV4 {
 			wild: false,
 			max_sigs: 4,
 			max_coms: 4,
+			proof_den: 6,
 		},
 	)
 }
@@ -978,7 +981,9 @@ fn gen_cases(p: &mut Prng, pools: &Pools, scale: u64) -> Vec<Case> {
 	for k in 1..=N_HELPERS {
 		for _ in 0..(6 * s) {
 			let n = rand_len(p).min(120);
-			push(7, k, p.bytes(n), "random");
+			if k <= N_FIELD_HELPERS {
+				push(7, k, p.bytes(n), "random");
+			}
 			let n = rand_len(p).min(60);
 			push(16, k, p.bytes(n), "random");
 		}
@@ -1179,7 +1184,11 @@ fn gen_cases(p: &mut Prng, pools: &Pools, scale: u64) -> Vec<Case> {
 				if matches!(k, 5 | 6 | 7) && l >= 64 && variant % 2 == 0 {
 					b[63] &= 0x1f;
 				}
-				push(7, k, b, "field-lengths");
+				if k <= N_FIELD_HELPERS {
+					push(7, k, b, "field-lengths");
+				} else {
+					push(16, k, format!("\"{}\"", hex(&b)).into_bytes(), "field-lengths");
+				}
 			}
 		}
 		// text layer junk
